@@ -39,15 +39,30 @@ def scale(v, f, depth=2):
         return ['cont', v[1], items]
     if v[0] == 'map':
         kvs = [[k, scale(x, f, depth - 1)] for k, x in v[2]]
-        if kvs and all(k[0] == 'str' for k, _ in kvs):
-            extra = [[['str', 'zz%d' % j], kvs[j % len(kvs)][1]] for j in range(len(kvs) * (f - 1))]
-            return ['map', v[1], kvs + extra]
-        if kvs and all(k[0] == 'int' for k, _ in kvs):
-            base = max(k[1] for k, _ in kvs) + 1
-            extra = [[['int', base + j], kvs[j % len(kvs)][1]] for j in range(len(kvs) * (f - 1))]
-            return ['map', v[1], kvs + extra]
-        return ['map', v[1], kvs]
+        extra = []
+        for j in range(len(kvs) * (f - 1)):
+            k, x = kvs[j % len(kvs)]
+            k2 = derive_key(k, j)
+            if k2 is None:
+                break
+            extra.append([k2, x])
+        return ['map', v[1], kvs + extra]
     return v
+
+
+def derive_key(k, j):
+    """a fresh hashable key of the same kind as k"""
+    if k[0] == 'str':
+        return ['str', k[1] + 'zz%d' % j]
+    if k[0] == 'int':
+        return ['int', k[1] + 1000 * (j + 1)]
+    if k[0] == 'float':
+        return ['float', k[1] + 2000 * (j + 1)]
+    if k[0] == 'bytes':
+        return ['bytes', k[1] + 'zz%d' % j]
+    if k[0] == 'obj':
+        return ['obj', k[1], [a for a in k[2] if a[0] != 'zz'] + [['zz', ['int', j]]]]
+    return None
 
 
 def size_of(v):
@@ -68,7 +83,7 @@ def model_bounds(ctx, hints):
 
 
 def reads_of(run):
-    return sum(1 for k, _ in run['trace'] if k in (1, 2, 3))
+    return sum(1 for k, _ in run['trace'] if k in (1, 2, 3, 4))
 
 
 def scaling_stream(ctx, n):
@@ -84,12 +99,22 @@ def scaling_stream(ctx, n):
             base = IR.mutate(rng, base)
         if not IR.valid_value(base) or size_of(base) < 3:
             continue
-        todo.append((h, base))
-    bounds = model_bounds(ctx, [h for h, _ in todo])
+        todo.append((h, base, None))
+        # the same object as the *conforming* sibling of a violating one: the explanation path must not scan it
+        if len(todo) < n:
+            good = IR.gen_sat(rng, h, sizes=(1, 2, 3))
+            if IR.valid_value(good) and size_of(good) >= 3:
+                kind = rng.choice(['tuple', 'annot'])
+                if kind == 'tuple':
+                    todo.append((['tuplefixed', [h, ['cls', 'int']]], ['cont', 'tuple', [good, ['str', 'bad']]],
+                                 (lambda good: lambda f: ['cont', 'tuple', [scale(good, f), ['str', 'bad']]])(good)))
+                else:
+                    todo.append((['annot', h, [['is', 4]]], good, None))
+    bounds = model_bounds(ctx, [h for h, _, _ in todo])
     cases, index = [], []
-    for ti, (h, base) in enumerate(todo):
+    for ti, (h, base, builder) in enumerate(todo):
         for f in (1, 10, 1000):
-            v = scale(base, f)
+            v = builder(f) if builder else scale(base, f)
             if size_of(v) > 400000:
                 continue
             cases.append({'hint': h, 'value': v, 'draws': [0, 7, 2 ** 32 - 1], 'is_random': True, 'strategy': 'O1',
@@ -102,7 +127,7 @@ def scaling_stream(ctx, n):
     for (ti, f), case, res in zip(index, cases, obs):
         per.setdefault(ti, {})[f] = (case, res)
     for ti, sizes in per.items():
-        h, base = todo[ti]
+        h, base, _ = todo[ti]
         ctx.case([h, base], True, sample={'hint': h, 'base_value': base, 'sizes': sorted(sizes),
                                           'bound': bounds[ti]})
         counts = {}
@@ -143,11 +168,7 @@ def run(ctx):
     ctx.assumptions += ['see C01; the explanation path (die_if_unbearable when rejecting) is measured, not modelled: '
                         'its size-independence is tested on the scaling stream only']
     regenerate(ctx)
-    proof_err = None
-    try:
-        ctx.prove(PROP, extra_targets=['theories/Core/Corr.vo', 'theories/Core/Cost.vo'])
-    except CoqFailure as e:
-        proof_err = e
+    proof_err = c01.prove_core(ctx, PROP)
     failures = 0
     try:
         failures += scaling_stream(ctx, {'quick': 60, 'thorough': 1500}[ctx.tier])
